@@ -804,6 +804,7 @@ func (e *Engine) invokeModset(u *Unit, c *ssa.CallCommon) *modset {
 type VerifyOpts struct {
 	Frame     bool     // emit frame obligations even without an `assigns nothing` clause
 	SweepOnly bool     // ignore functional clauses, only safety
+	NoLoopInv bool     // declared loop invariants of the unit are not used
 	NoInv     bool     // do not assume declared type invariants / nonnil declarations
 	SkipInv   []string // type names whose invariants are not assumed
 }
@@ -881,6 +882,7 @@ func (e *Engine) verify(fn *ssa.Function, opts VerifyOpts) (u *Unit) {
 	}
 	u.quantOK = ct != nil && !opts.SweepOnly
 	u.noInv = opts.NoInv
+	u.noLoopInv = opts.NoLoopInv
 	u.skipInv = map[string]bool{}
 	for _, t := range opts.SkipInv {
 		u.skipInv[t] = true
